@@ -514,7 +514,10 @@ VARIANTS = [
     V("not-convex", FITF, "k: v * (1.0 - burn_in_step) + burn_in_step * sufficient_statistics[k]", "k: v + burn_in_step * sufficient_statistics[k]", "C05.R2"),
     V("power-interval-open", FITF, "if not (0.5 < self.algo_parameters[\"burn_in_step_power\"] <= 1):", "if not (0.5 <= self.algo_parameters[\"burn_in_step_power\"] <= 1):", "C05.R3"),
     V("frac-overrides-count", SF, "        if self.algo_parameters.get(\"n_burn_in_iter\", None) is None:", "        if n_burn_in_iter_frac is not None:", "C05.R4"),
-    V("silent-robbins-monro-form", FITF, "k: v * (1.0 - burn_in_step) + burn_in_step * sufficient_statistics[k]", "k: v + burn_in_step * (sufficient_statistics[k] - v)", None),
+    # equal over the finite reals, and for a long time a 'silent' variant of this catalogue - until seeded change C05l showed what the comment in
+    # the source says: with an infinite statistic the incremental form gives inf - inf = NaN where the schedule gives inf
+    V("robbins-monro-form-loses-infinite-statistics", FITF, "k: v * (1.0 - burn_in_step) + burn_in_step * sufficient_statistics[k]", "k: v + burn_in_step * (sufficient_statistics[k] - v)", "C05.R2"),
+    V("silent-convex-form-reordered", FITF, "k: v * (1.0 - burn_in_step) + burn_in_step * sufficient_statistics[k]", "k: burn_in_step * sufficient_statistics[k] + (1.0 - burn_in_step) * v", None),
     V("silent-guard-rewritten", FITF, "self.current_iteration == 1 + self.algo_parameters[\"n_burn_in_iter\"]", "self.current_iteration - self.algo_parameters[\"n_burn_in_iter\"] == 1", None),
     V("silent-step-temporary", "src/leaspy/algo/fit/mcmc_saem.py", "            burn_in_step **= -self.algo_parameters[\"burn_in_step_power\"]\n", "            power = self.algo_parameters[\"burn_in_step_power\"]\n            burn_in_step = burn_in_step ** (-power)\n", None),
 ]
